@@ -33,6 +33,20 @@ if ! CARGO_NET_OFFLINE=true cargo build --release --offline --bin "$bin" >"$work
 fi
 VERIF_DIR="$work/verif" "./target/release/$bin" "$tier" > "$work/out.log" 2>&1
 rc=$?
+# second build profile (no debug assertions / overflow checks), as ./check does, when the first one stayed silent
+if [ $rc -eq 0 ] && [ -z "${MUT_NO_PLAIN:-}" ]; then
+  if [ -d "$here/harness/target/plain" ]; then
+    cp -r "$here/harness/target/plain" "$work/verif/harness/target/" 2>/dev/null
+    rm -f "$work/verif/harness/target/plain/"c[0-9]* 2>/dev/null
+  fi
+  if CARGO_NET_OFFLINE=true cargo build --profile plain --offline --bin "$bin" >"$work/build2.log" 2>&1; then
+    echo "--- plain profile" >> "$work/out.log"
+    VERIF_PROFILE_TAG=plain VERIF_DIR="$work/verif" "./target/plain/$bin" "$tier" >> "$work/out.log" 2>&1
+    rc=$?
+  else
+    echo "MUTCHECK: plain-profile build failed"; grep -E '^error' -A8 "$work/build2.log" | head -20
+  fi
+fi
 grep -c '^VIOLATION' "$work/out.log" | sed 's/^/MUTCHECK: violation lines: /'
 grep -A2 '^VIOLATION' "$work/out.log" | head -${MUT_LINES:-12} | cut -c1-400
 tail -1 "$work/out.log"
